@@ -66,6 +66,12 @@ class Proxy:
         before = codec.bytes_digest(arg)
         if self.interfere:
             run_other_solvers(arg.shape, arg.dtype, self.stats)
+            if codec.bytes_digest(arg) != before:
+                # the array this solver handed to its callback was changed by *other* solver
+                # instances that merely ran meanwhile: state is shared between instances
+                from simkit.world import Violation
+                raise Violation("solver_state_shared_between_instances", "callback." + self.name, self.calls,
+                                {"callback": self.name, "call": i})
         out = self.fn(*args)
         if self.fault is not None:
             out2 = self.fault(i, arg, out)
